@@ -6,11 +6,13 @@ CONSTANTS
   MaxPre = 0
   T = 2  QT = 5  FoCap = 20
   Ticks = FALSE  FwdStream = FALSE
-  DebitFirst = FALSE  CheckMatch = TRUE  StopAtDeadline = TRUE
+  PreWorks <- NoWork
+  DebitFirst = FALSE  CheckMatch = TRUE  StopAtDeadline = TRUE  LatchGuard = TRUE  StampFirst = TRUE
 SPECIFICATION Spec
 INVARIANTS TypeOK AtMostOneReply OneReplyWhenDone InTime WalkOnce SendBound TcpOnlyAfterTruncation
   ReplyIsAnswerOrServfail NoMismatchRelayed RelayIsFromContacted DebitBeforeSend WithinBudget WorkFailIffLatched
   GuardRespected FailoverOnlyOnServfail FallbackUntouchedUnlessEngaged LocalFailureMarked
+  OverBudgetReplyIsWorkFail NoTrafficAfterPrimaryRejection PreworkOnlyBitesInEnforce ReplyEchoesClientId
 PROPERTIES SendAfterDebit
 VIEW View
 CHECK_DEADLOCK FALSE
